@@ -43,10 +43,17 @@ def run(ctx, pid="C09"):
     if os.path.exists(corpus):
         ctx.vhrun(["lex-run", corpus, ctx.path("corpus.rec")])
         vlib.validate_cases(ctx, "LexTrace", cfg, ctx.path("corpus.rec"), label="corpus", **kw)
-    for mode, n, L in (plan(ctx) if pid == "C09" else [("bytes", 10000 if ctx.tier == "thorough" else 1100, 3)]):
-        f = ctx.path("rnd-%s.ndjson" % mode)
-        ctx.vhrun(["lex-random", str(n), f, mode, str(L)])
-        vlib.validate_cases(ctx, "LexTrace", cfg, f, label=mode, timeout=3300, **kw)
+    if pid == "C09":
+        batches = [(mode, n, L, None) for mode, n, L in plan(ctx)]
+    elif ctx.tier == "thorough":
+        # batches keep every TLC validation well inside its time limit on a loaded machine
+        batches = [("bytes", 1500, 3, ctx.seed * 10 + b) for b in range(4)]
+    else:
+        batches = [("bytes", 1100, 3, None)]
+    for k, (mode, n, L, seed) in enumerate(batches):
+        f = ctx.path("rnd-%s-%d.ndjson" % (mode, k))
+        ctx.vhrun(["lex-random", str(n), f, mode, str(L)], env_extra={"VERIF_SEED": str(seed)} if seed is not None else None)
+        vlib.validate_cases(ctx, "LexTrace", cfg, f, label="%s%d" % (mode, k) if seed is not None else mode, timeout=3300, **kw)
     ctx.cov["rule"] = ("Seeded random rule sets (regex ASTs of depth <= 3 with literals, classes incl. negated, * + ? {m,n}, alternation; 1-3 rules; priorities; 1-2 start "
                        "conditions) in rune, case-folding and byte mode are compiled by the real lex package and scanned on every text up to length 4 (3 in byte mode) over "
                        "the mode's symbolic alphabet; TLC evaluates the derivative-based LongestMatch at every text and compares size and action. Non-trivial: "
